@@ -61,6 +61,10 @@ func (g *EvGen) Event() *mocrelay.Event {
 		Content: fmt.Sprintf("c%d", g.nextID), Sig: sig128(g.nextID),
 	}
 	e.Tags = g.tags(k)
+	if r.P(3) {
+		// timestamps are signed 64-bit integers and nothing restricts them: zero, negative, beyond 32 bits
+		e.CreatedAt = pick(r, []int64{0, -1, -7, 4294967296 + 3, 1 << 40})
+	}
 	g.made = append(g.made, e)
 	return e
 }
